@@ -692,8 +692,12 @@ func (vm *VirtualMachine) eval(ctx context.Context) error {
 			for _, name := range names {
 				// check if the name matches a module
 				module, err := vm.importModule(ctx, filepath.Join(filepath.Join(from...), name))
+				var unavailable *moduleUnavailableError
 				if err == nil {
 					vm.push(module)
+				} else if !errors.As(err, &unavailable) {
+					// the name is a module, and importing it failed
+					return err
 				} else {
 					// otherwise, the name is a symbol inside a module
 					module, err := vm.importModule(ctx, filepath.Join(from...))
@@ -1136,12 +1140,22 @@ func (vm *VirtualMachine) reloadCode(main *compiler.Code) *code {
 	return newWrappedMain
 }
 
+// moduleUnavailableError says that there is no module of the name to evaluate
+// (as opposed to a module whose evaluation failed).
+type moduleUnavailableError struct {
+	err error
+}
+
+func (e *moduleUnavailableError) Error() string { return e.err.Error() }
+
+func (e *moduleUnavailableError) Unwrap() error { return e.err }
+
 func (vm *VirtualMachine) importModule(ctx context.Context, name string) (*object.Module, error) {
 	if module, ok := vm.modules[name]; ok {
 		return module, nil
 	}
 	if vm.importer == nil {
-		return nil, fmt.Errorf("imports are disabled")
+		return nil, &moduleUnavailableError{err: fmt.Errorf("imports are disabled")}
 	}
 	// A module whose code is still being evaluated is not in the cache yet:
 	// importing it again would run its top-level code again, without end
@@ -1150,7 +1164,7 @@ func (vm *VirtualMachine) importModule(ctx context.Context, name string) (*objec
 	}
 	module, err := vm.importer.Import(ctx, name)
 	if err != nil {
-		return nil, err
+		return nil, &moduleUnavailableError{err: err}
 	}
 	if vm.importing == nil {
 		vm.importing = map[string]bool{}
